@@ -61,6 +61,15 @@ fn probes() -> Vec<String> {
         v.push(format!("a{}", "?".repeat(n.min(50_000))));
         v.push(format!("(?=)a{}", "*+".repeat(n.min(50_000))));
     }
+    // nested small repeat counts around a hard and around an easy body (a compiler that
+    // unrolls small counts multiplies the program size per nesting level)
+    for k in [2usize, 3, 4] {
+        for d in [8usize, 12, 16, 30, 60] {
+            for body in ["a(?=b)", "a", "(a)\\1"] {
+                v.push(format!("{}{}{}", "(?:".repeat(d), body, format!("){{{}}}", k).repeat(d)));
+            }
+        }
+    }
     for s in ["(?:ab){18446744073709551615}", "(?:a{2,}){18446744073709551615}", "(?=)(?:ab){18446744073709551615}", "a{18446744073709551615}{2}", "(?:a{4294967296}){4294967296}",
         "(?(a{18446744073709551615})b{18446744073709551615}|c)", "(?<=a{18446744073709551615})", "\\k<99999999999>", "\\g<99999999999>", "(?#😀\\", "(?#\\", "\\k<-99999999999>", "(?<n>)\\k<-18446744073709551615>", "\\18446744073709551616"] {
         v.push(s.to_string());
